@@ -181,8 +181,8 @@ def standard_plans(tier, borrow_limit_orders=True):
         ps += [
             dict(plan="single", depth=3, bp=8, qp=2, fee="none"),
             dict(plan="single", depth=3, bp=2, qp=0, fee="pct"),
-            dict(plan="single", depth=3, bp=8, qp=8),
-            dict(plan="single", depth=3, bp=0, qp=2, namounts=3),
+            dict(plan="single", depth=3, bp=8, qp=8, kinds=["limit", "stop_limit"]),
+            dict(plan="single", depth=3, bp=0, qp=2, namounts=3, kinds=["market", "stop"]),
             dict(plan="single", depth=3, bp=8, qp=2, liq="vsi", vols=VOLS, split=16),
             dict(plan="pair", depth=3, bp=8, qp=2, second="all", split=16),
             dict(plan="cross", depth=3, npairs=2, bp=8, qp=2, namounts=1, kinds=["stop", "stop_limit"], second="all"),
